@@ -10,7 +10,8 @@ TECHNIQUE = ("Coq proof over all schedules of an interleaving model (producers /
              "replaying the observed linearisation in the extracted model")
 LEVEL_TEXT = ("Theorems for all schedules, producer counts and programs: c28_order (per-producer order, sequence numbers 1,2,3..), "
               "c28_levels (only submitted lines at enabled levels are written, with their text), c28_exactly_once_partial (no line "
-              "twice), c28_all_written_partial (complete when stop() follows a drained queue), c28_return_exact; refuted with "
+              "twice), c28_all_written_partial (complete when stop() follows a drained queue), c28_return_exact, c28_oracle_sound / "
+              "c28_oracle_complete_partial (the extracted oracle's clauses hold on the model); refuted with "
               "witnesses: lost lines on an early stop(), inverted return value, empty line taken for the stop marker.")
 LEVEL_NOTE = ("Partial: the logic is proved on the model; not proved are the atomicity/linearizability of the FastFlow queue "
               "(property C30), absence of data races, and the OS file semantics. The OS chooses the real schedule: the check "
@@ -180,3 +181,16 @@ def extra_search(rng, seeds, tier):
 
 # no shrink(): every case with an enabled-level call fails the oracle (return value), so the framework's shrinker,
 # which only looks at the oracle bit, would walk from a new failure into a known one.
+
+
+def extra_evidence(ctx):
+    """The harness works under /tmp/C28-<pid>/ and removes it on exit; a harness process that was killed (sanitizer abort of
+    a mutant, time-out) cannot, so directories of dead processes are removed here."""
+    import glob
+    import os
+    import shutil
+    for d in glob.glob("/tmp/C28-[0-9]*"):
+        pid = d.rsplit("-", 1)[1]
+        if pid.isdigit() and not os.path.exists("/proc/" + pid):
+            shutil.rmtree(d, ignore_errors=True)
+    return {}
